@@ -19,6 +19,7 @@ from hypothesis import strategies as st
 from . import boot                                    # noqa: F401
 from .runner import CaseResult, Part, exc_sig
 from . import schedsim, schedgen, execsim, c07
+from . import c08_raptor
 
 import radical.utils as ru
 import radical.pilot.states    as rps
@@ -37,7 +38,7 @@ ASSUMPTIONS = ['see C04 (scheduler pair engine) and C07 (executor assembly engin
                'and the pilot components is C16\'s forwarding, the components are driven per half-pipeline']
 NOT_REACHED = ['cancel while a task is in client- or agent-side staging components other than through the generic '
                'intake filter', 'real process kill (signals)']
-BUDGET = {'quick': 110, 'thorough': 1500}
+BUDGET = {'quick': 140, 'thorough': 1500}
 
 
 # ------------------------------------------------------------------------------
@@ -107,7 +108,8 @@ def request_cases(draw):
 
 
 def parts(tier):
-    return [Part('sched', sched_cases(), quick=150, thorough=900),
+    return [Part('raptor_backlog', c08_raptor.cases(), quick=300, thorough=3000),
+            Part('sched', sched_cases(), quick=150, thorough=900),
             Part('exec', exec_cases(), quick=180, thorough=1500),
             Part('exec_sweep', enum=lambda tier: (c for c in c07.sweep_cases(tier)
                                                    if any(m[0] == 'cancel' for m in c['moves']))),
@@ -118,6 +120,8 @@ def parts(tier):
 
 
 def normalise(case):
+    if case.get('kind') == 'raptor_backlog':
+        return c08_raptor.normalise(case)
     if case.get('kind') == 'sched':
         return schedgen.normalise(case)
     if case.get('kind') in ('exec', 'sweep'):
@@ -370,6 +374,8 @@ def run_request(case, res):
 def run_case(case):
     res = CaseResult()
     k = case.get('kind')
+    if k == 'raptor_backlog':
+        return c08_raptor.run_case(case)
     if k == 'sched':
         run_sched(case, res)
     elif k in ('exec', 'sweep'):
